@@ -23,6 +23,7 @@ import (
 const c25K = 3
 
 type c25Resp struct {
+	none    bool // no item for the key in the answer (nothing newer than the requested version)
 	removed bool
 	bv      uint64
 	prev    bool
@@ -33,6 +34,9 @@ type c25Call struct {
 	key  int
 	reqv uint64
 	resp chan c25Resp
+	// a call carrying several keys (timer-driven cycle): the items as sent by the node, answered together
+	items []SharedPollItem
+	multi chan []c25Resp
 }
 
 type c25Chan struct {
@@ -108,7 +112,7 @@ func c25NewEnv(t *testing.T) *c25Env {
 		e.mu.Lock()
 		c := e.chans[ev.Channel]
 		e.mu.Unlock()
-		if c == nil || len(ev.Items) != 1 {
+		if c == nil || len(ev.Items) == 0 {
 			return SharedPollResult{}, fmt.Errorf("unexpected poll %v", ev)
 		}
 		c.mu.Lock()
@@ -116,6 +120,38 @@ func c25NewEnv(t *testing.T) *c25Env {
 		c.mu.Unlock()
 		if closed {
 			return SharedPollResult{Epoch: c.epochNow()}, nil // the scenario is over
+		}
+		if len(ev.Items) > 1 {
+			// timer-driven cycle: every key of the channel in one call
+			json := ev.Channel[len(ev.Channel)-1] == 'j'
+			call := &c25Call{key: -2, items: append([]SharedPollItem(nil), ev.Items...), multi: make(chan []c25Resp, 1)}
+			c.entered <- call
+			select {
+			case rs := <-call.multi:
+				var out []SharedPollRefreshItem
+				epoch := c.epochNow()
+				for i, item := range ev.Items {
+					if item.Key == "kz" {
+						out = append(out, SharedPollRefreshItem{Key: "kz", Version: 1, Data: []byte("z")})
+						continue
+					}
+					r := rs[i]
+					epoch = r.epoch
+					if r.none {
+						continue
+					}
+					var k int
+					_, _ = fmt.Sscanf(item.Key, "k%d", &k)
+					it := SharedPollRefreshItem{Key: item.Key, Version: r.bv, Data: c25Doc(k, r.bv, json)}
+					if r.prev && item.Version > 0 && item.Version < r.bv {
+						it.PrevData = c25Doc(k, item.Version, json)
+					}
+					out = append(out, it)
+				}
+				return SharedPollResult{Items: out, Epoch: epoch}, nil
+			case <-ctx.Done():
+				return SharedPollResult{}, ctx.Err()
+			}
 		}
 		if ev.Items[0].Key == "kz" {
 			// barrier key tracked by a helper connection: the refresh worker handles notifications one at a
@@ -131,6 +167,9 @@ func c25NewEnv(t *testing.T) *c25Env {
 		case r := <-call.resp:
 			json := ev.Channel[len(ev.Channel)-1] == 'j'
 			it := SharedPollRefreshItem{Key: ev.Items[0].Key}
+			if r.none {
+				return SharedPollResult{Epoch: r.epoch}, nil
+			}
 			if r.removed {
 				it.Removed = true
 			} else {
@@ -189,6 +228,9 @@ type c25Scn struct {
 	ndelta  int
 	npush   int
 	finding string
+	reqs    []string // versions the node put into its backend requests, one per APollReq
+	final   []string
+	nTimer  int
 	inPark  int // broadcasts held between the two phases of keyedWritePublication (0 or 1): they precede every later one in the model's list
 	nPark   int
 }
@@ -369,6 +411,7 @@ func (s *c25Scn) pump() *c25Call {
 
 func (s *c25Scn) hold(call *c25Call) {
 	s.pending = call
+	s.reqs = append(s.reqs, vNat(int(call.reqv)))
 	s.act(vApp("APollReq", vNat(call.key)), nil, fmt.Sprintf("poll request k%d with version %d", call.key, call.reqv))
 }
 
@@ -650,6 +693,115 @@ func (s *c25Scn) doPublishParked(k int) {
 	s.act(vApp("ADeliver", "0%nat", vBool(dp1)), s.drain(), "  (the held broadcast resumes)")
 }
 
+// One timer-driven refresh cycle (what the channel's refresh timer runs), with the backend's answer
+// chosen per key. final: the backend behaves like a real one that reports changes since the requested
+// version - it answers a key only when it has something newer than that version.
+func (s *c25Scn) doTimerCycle(final bool) {
+	if s.inPark > 0 || !s.sub || s.bad != "" {
+		return
+	}
+	s.settle()
+	if s.pending != nil || s.late != nil {
+		return
+	}
+	m := s.e.node.sharedPollManager
+	m.mu.RLock()
+	st := m.channels[s.ch]
+	m.mu.RUnlock()
+	if st == nil {
+		return
+	}
+	done := make(chan struct{})
+	go func() {
+		st.runRefreshCycle(context.Background(), s.e.node, s.ch, m.sem)
+		close(done)
+	}()
+	var call *c25Call
+	deadline := time.After(10 * time.Second)
+	for call == nil {
+		select {
+		case c := <-s.cc.entered:
+			if c.key == -2 {
+				call = c
+			} else if c.key >= 0 {
+				s.bad = "single-key backend call during a timer cycle"
+				c.resp <- c25Resp{none: true, epoch: s.epoch}
+			}
+		case <-done:
+			s.jev = append(s.jev, "timer cycle: nothing to poll")
+			return
+		case <-deadline:
+			s.bad = "timer cycle made no backend call"
+			return
+		}
+	}
+	s.nTimer++
+	s.jev = append(s.jev, fmt.Sprintf("timer cycle (final=%v)", final))
+	rs := make([]c25Resp, len(call.items))
+	var keys []int
+	for i, item := range call.items {
+		if item.Key == "kz" {
+			continue
+		}
+		var k int
+		_, _ = fmt.Sscanf(item.Key, "k%d", &k)
+		keys = append(keys, i)
+		s.reqs = append(s.reqs, vNat(int(item.Version)))
+		s.act(vApp("APollReq", vNat(k)), nil, fmt.Sprintf("  request k%d with version %d", k, item.Version))
+		r := c25Resp{epoch: s.epoch}
+		if final {
+			if item.Version < s.maxV[k] {
+				r.bv = s.maxV[k]
+			} else {
+				r.none = true
+			}
+		} else {
+			switch x := s.r.Intn(10); {
+			case x < 3:
+				r.none = true
+			default:
+				r.bv = s.nextVersion(k)
+				r.prev = s.r.Intn(3) != 0
+			}
+		}
+		rs[i] = r
+	}
+	call.multi <- rs
+	select {
+	case <-done:
+	case <-time.After(10 * time.Second):
+		s.bad = "timer cycle did not finish"
+		return
+	}
+	pushes := s.drain()
+	byKey := map[int][]string{}
+	for _, p := range pushes {
+		var k, a, b int
+		if n, _ := fmt.Sscanf(p, "(PFull %d%%nat %d%%nat)", &k, &a); n == 2 {
+			byKey[k] = append(byKey[k], p)
+		} else if n, _ := fmt.Sscanf(p, "(PDelta %d%%nat %d%%nat %d%%nat)", &k, &a, &b); n == 3 {
+			byKey[k] = append(byKey[k], p)
+		} else {
+			s.bad = "unexpected push in a timer cycle: " + p
+		}
+	}
+	for _, i := range keys {
+		var k int
+		_, _ = fmt.Sscanf(call.items[i].Key, "k%d", &k)
+		r := rs[i]
+		if r.none {
+			s.act(vApp("APollNone", "0%nat"), nil, fmt.Sprintf("  backend has nothing for k%d", k))
+			continue
+		}
+		s.act(vApp("APollResp", "0%nat", vNat(int(r.bv)), vBool(r.prev)), nil, fmt.Sprintf("  backend answers k%d: version %d prev_data=%v", k, r.bv, r.prev))
+		s.act(s.deliverNow(), byKey[k], "    (broadcast of the response)")
+		delete(byKey, k)
+	}
+	if len(byKey) > 0 {
+		s.bad = "push for a key that was not answered in the timer cycle"
+	}
+}
+
 func (s *c25Scn) doRevoke(k int) {
 	if !s.tracked[k] {
 		return
@@ -713,6 +865,35 @@ func (s *c25Scn) close() {
 	_ = s.helper.close(DisconnectForceNoReconnect)
 }
 
+// quiescence with a fair poller and a responsive backend: a few timer cycles, after which every tracked
+// key must hold the newest version
+func (s *c25Scn) finish() {
+	if !(s.sub && s.bad == "" && s.pending == nil) {
+		return
+	}
+	for k := range s.tracked {
+		if s.tracked[k] && s.maxV[k] == 0 {
+			s.maxV[k] = 1
+		}
+	}
+	for j := 0; j < 3; j++ {
+		s.doTimerCycle(true)
+		for q := 0; q < 10 && s.pending != nil; q++ {
+			s.doRespond(false)
+		}
+	}
+	if s.pending == nil && s.late == nil && s.sub && s.bad == "" {
+		for k := range s.tracked {
+			if s.tracked[k] {
+				s.final = append(s.final, vPair(vNat(k), vNat(int(s.maxV[k]))))
+				if s.held[k] != s.maxV[k] && s.finding == "" {
+					s.finding = "keyed-late-joiner-not-served"
+				}
+			}
+		}
+	}
+}
+
 func (s *c25Scn) runForced(steps []string) {
 	for _, st := range steps {
 		var k, v int
@@ -746,6 +927,21 @@ func (s *c25Scn) runForced(steps []string) {
 			s.act(vApp("APollResp", "0%nat", vNat(v), vBool(prev)), nil, fmt.Sprintf("backend answers k%d: version %d prev_data=%v (request had version %d)", call.key, v, prev, call.reqv))
 			s.act(vApp("ADeliver", "0%nat", "true"), pushes, "  (broadcast of the response)")
 			s.resume()
+		case st == "none":
+			// the one backend call in flight ends without an item for its key (error / nothing newer)
+			if s.pending == nil {
+				s.settle()
+			}
+			if s.pending == nil {
+				s.bad = "no backend call in flight"
+				return
+			}
+			call := s.pending
+			s.pending = nil
+			call.resp <- c25Resp{none: true, epoch: s.epoch}
+			s.waitApplied()
+			s.act(vApp("APollNone", "0%nat"), s.drain(), fmt.Sprintf("backend call for k%d ends without an item", call.key))
+			s.resume()
 		case len(st) > 3 && st[:3] == "pub":
 			_, _ = fmt.Sscanf(st, "pub%d", &v)
 			if uint64(v) > s.maxV[0] {
@@ -774,13 +970,18 @@ func TestVerifC25(t *testing.T) {
 		}
 		r := w.Rand(i)
 		json, keep := r.Intn(2) == 0, r.Intn(2) == 0
-		if i == 0 {
+		if i <= 1 {
 			json, keep = false, false
 		}
 		s := c25NewScn(e, r, fmt.Sprintf("c25_%d", i), json, keep)
 		if i == 0 {
 			// corpus: SharedPollPublish while a backend call that will carry PrevData is in flight
 			s.runForced([]string{"sub", "track0", "resp5", "notify0", "pub6", "resp7p"})
+		} else if i == 1 {
+			// corpus: a late joiner of a warm key whose one notified backend call is lost; only the
+			// periodic cycles can serve it, and only by asking from version 0
+			s.runForced([]string{"sub", "track0", "resp5", "track0", "none"})
+			s.finish()
 		} else {
 			s.doSubscribe()
 			n := 10 + r.Intn(25)
@@ -804,8 +1005,10 @@ func TestVerifC25(t *testing.T) {
 					s.doPublish(k, false)
 				case x < 92:
 					s.doPublishParked(k)
-				case x < 96:
+				case x < 95:
 					s.doRevoke(k)
+				case x < 98:
+					s.doTimerCycle(false)
 				default:
 					s.doPublish(k, true)
 				}
@@ -813,6 +1016,7 @@ func TestVerifC25(t *testing.T) {
 			for j := 0; j < 10 && s.pending != nil; j++ {
 				s.doRespond(false)
 			}
+			s.finish()
 		}
 		s.close()
 		class := "keyed"
@@ -827,14 +1031,20 @@ func TestVerifC25(t *testing.T) {
 		if i == 0 {
 			class += "/corpus-prevdata-race"
 		}
+		if i == 1 {
+			class += "/corpus-late-joiner-notified-call-lost"
+		}
 		if s.nPark > 0 {
 			class += "+held-broadcast"
+		}
+		if s.nTimer > 0 {
+			class += "+timer"
 		}
 		if s.bad != "" {
 			t.Errorf("case %d (%s): driver problem: %s", i, class, s.bad)
 			class += "/driver-problem"
 		}
-		term := vApp("mkCase", vBool(keep), vBool(e.gx), vList(s.script), vList(s.obs))
+		term := vApp("mkCase", vBool(keep), vBool(e.gx), vList(s.script), vList(s.obs), vList(s.reqs), vList(s.final))
 		w.Case(i, term, map[string]any{"class": class, "script": s.jev, "finding": s.finding, "pushes": s.npush, "deltas": s.ndelta},
 			class, s.npush >= 4 && s.ndelta >= 1)
 	}
